@@ -46,7 +46,8 @@ CHECKS = {
     text="Calendar.tla is an integer proleptic-Gregorian calendar; TLC checks bucket-containment, monotonicity and inverse-conversion "
          "lemmas on every day 1900-2100 (thorough) and emits each day's facts, replayed into verif.util conversions and all time-like "
          "axes; Dataset.tla SliceKey/SliceOf with the Partition invariant gives the slices of datasets whose initialisation times "
-         "straddle year/month/week/leap-day boundaries (and lead times before the initialisation time), replayed through Data.get_axis_values and get_scores for 15 axes.",
+         "straddle year/month/week/leap-day boundaries (runs off the hour and lead times before the initialisation time included), replayed through Data.get_axis_values and get_scores for 15 axes, "
+         "also after another dataset has been opened in the same process and under other time zones.",
     technique="TLA+ specs (Calendar.tla, Dataset.tla) model-checked with TLC; per-day facts and per-slice cases replayed into verif.util/axis/data",
     ref="6/C11"),
  "C12": dict(
@@ -163,7 +164,8 @@ CHECKS = {
          "36-request menu (plus menus over other fields, ensemble members, and slices of several derived dimensions with the same slice number) and, under a canonical view that forgets object ids, in EVERY cache state reachable by histories of any length "
          "over a 12-request core menu (datasets x 2^12 states). Spec->code: maximal behaviours are replayed on one real Data object (results vs the history-free "
          "expectation, all earlier arrays vs their snapshots, Input arrays unchanged). Code->spec: hook traces of those executions are "
-         "and of random request sequences are validated by TLC against the model (Trace_DataImpl), internal disagreement being MODEL-DRIFT only.",
+         "and of random request sequences are validated by TLC against the model (Trace_DataImpl), internal disagreement being MODEL-DRIFT only. "
+         "Repeating a command: every command of a small menu is run in several fresh interpreters (different string-hash seeds) on files with and without a location column and must print the same.",
     technique="TLA+ refinement DataImpl => Dataset checked by TLC over all request histories (bounded: every sequence; unbounded: every reachable cache state under a canonical view); behaviours replayed into verif.data.Data; hook traces validated by TLC",
     ref="6/C18"),
  "C19": dict(
